@@ -7,10 +7,53 @@ def alignOf (s : String) : Option Align :=
   if s = "1" then some .left else if s = "2" then some .center else if s = "3" then some .right else none
 
 def showChunks (cs : Chunks) : String :=
-  " ".intercalate (toString cs.length :: cs.map showCps)
+  " ".intercalate (toString cs.length :: cs.map fun c => showCps c.text)
+
+/-- `PPTable(records, fmt_obj=<format object>, …)`: `via = 0` — the format of another table (printed
+first when `pf = 1`), `via = 1` — `PPTableFormat.make(fmt, fields, types, titles, first record)` -/
+def handleObj (pf via : String) (rest : List String) : String :=
+  match Wire.splitAt rest with
+  | [donor, second] =>
+    match Wire.parseSpec donor, Wire.parseRest second with
+    | some a, some r =>
+      let donorFmt : Except Err Fmt :=
+        if via = "1" then (mkTable { a with limits := none, skip := none }).map (·.fmt)
+        else if pf = "1" then (mkTable a >>= render).map (·.1.fmt)
+        else (mkTable a).map (·.fmt)
+      match donorFmt >>= fun f => render (mkTableFromFmt f r.records r.limits r.skip r.header r.footer) with
+      | .ok (_, ls) => "ok " ++ Wire.showLines ls
+      | .error e => "err " ++ e.name
+    | _, _ => "bad-op"
+  | _ => "bad-op"
+
+def dedup : List Nat → List Nat
+  | [] => []
+  | x :: xs => x :: (dedup xs).filter (· ≠ x)
+
+def handleIlv (rest : List String) : String :=
+  match (Wire.splitAt rest).reverse with
+  | sched :: its :: specsRev =>
+    match specsRev.reverse.mapM Wire.parseSpec, its.mapM (·.toNat?), sched.mapM (·.toNat?) with
+    | some args, some iters, some sch =>
+      match args.mapM mkTable with
+      | .error e => "err " ++ e.name
+      | .ok tables =>
+        let order := dedup ((sch.filter (· < iters.length)) ++ List.range iters.length)
+        match startIters tables iters order [] with
+        | .error e => "err " ++ e.name
+        | .ok res =>
+          let byIter := (List.range iters.length).map fun i =>
+            match res.find? (·.1 = i) with
+            | some (_, ls) => Wire.showLines ls
+            | none => "0"
+          "ok " ++ " ".intercalate (toString iters.length :: byIter)
+    | _, _, _ => "bad-op"
+  | _ => "bad-op"
 
 def handle (line : String) : String :=
   match splitWs line with
+  | "obj" :: pf :: via :: rest => handleObj pf via rest
+  | "ilv" :: rest => handleIlv rest
   | "tbl" :: spec =>
     match Wire.parseSpec spec with
     | some a =>
@@ -20,11 +63,11 @@ def handle (line : String) : String :=
     | none => "bad-op"
   | "fit" :: w :: al :: chunks =>
     match w.toNat?, alignOf al, chunks.mapM parseCps with
-    | some w, some a, some cs => "ok " ++ showChunks (fitToWidth cs w a)
+    | some w, some a, some cs => "ok " ++ showChunks (fitToWidth (cs.map plain) w a)
     | _, _, _ => "bad-op"
   | "resize" :: n :: chunks =>
     match n.toNat?, chunks.mapM parseCps with
-    | some n, some cs => "ok " ++ showChunks (resizeChunks cs n)
+    | some n, some cs => "ok " ++ showChunks (resizeChunks (cs.map plain) n)
     | _, _ => "bad-op"
   | _ => "bad-op"
 
